@@ -127,6 +127,11 @@ func coqObsOff(p pageObs) (string, bool) {
 func emitCol(r *vx.Run, in any, key string, rows []int64, q qdesc, p pageObs, nontrivial bool) {
 	qs, ok1 := q.coq()
 	os, ok2 := coqObsCol(p)
+	if q.Filter.weight() > coqFilterLimit {
+		r.Count("col-call-oracle-only-big-filter")
+		r.Case("", in, key, nontrivial)
+		return
+	}
 	if !ok1 || !ok2 || p.Unread != "" || p.Err != "" {
 		r.Count("col-call-not-emitted")
 		r.Case("", in, key, false)
@@ -137,6 +142,11 @@ func emitCol(r *vx.Run, in any, key string, rows []int64, q qdesc, p pageObs, no
 func emitOff(r *vx.Run, in any, key string, rows []int64, q qdesc, p pageObs, nontrivial bool) {
 	qs, ok1 := q.coq()
 	os, ok2 := coqObsOff(p)
+	if q.Filter.weight() > coqFilterLimit {
+		r.Count("off-call-oracle-only-big-filter")
+		r.Case("", in, key, nontrivial)
+		return
+	}
 	if !ok1 || !ok2 || p.Unread != "" || p.Err != "" || p.Panic != "" {
 		r.Count("off-call-not-emitted")
 		r.Case("", in, key, false)
@@ -166,7 +176,9 @@ func colWalk(r *vx.Run, in input) {
 	oracleOn := noDup(in.Rows) && in.Size >= 1
 	size := len(in.Rows) + int(in.Size)
 	fail := func(sig, detail string) { r.FailSized(sig, in, detail, size) }
-	key := func(step string) string { return fmt.Sprintf("colwalk/%v/%d/%s/%s/%s", in.Rows, in.Size, in.Order, cls, step) }
+	key := func(step string) string {
+		return fmt.Sprintf("colwalk/%v/%d/%s/%s/%s", in.Rows, in.Size, in.Order, cls, step)
+	}
 
 	// the first query goes through the codec like every other (the description the model gets is read back
 	// from the wire form the real encoder produced)
@@ -535,6 +547,11 @@ func codecOne(r *vx.Run, in input) {
 	qs, ok1 := q.coq()
 	ws, ok2 := w.coq()
 	key := "codec/" + enc
+	if q.Filter.weight() > coqFilterLimit {
+		r.Count("codec-oracle-only-big-filter")
+		r.Case("", in, key, q.Filter != nil)
+		return
+	}
 	if !ok1 || !ok2 {
 		r.Count("codec-not-emitted")
 		r.Case("", in, key, false)
@@ -606,4 +623,3 @@ func pageSizeOne(r *vx.Run, in input) {
 	}
 	r.Case(fmt.Sprintf("CasePageSize %d%%N %d%%N %s %s", in.Default, in.Max, p, res), in, fmt.Sprintf("pagesize/%d/%d/%s", in.Default, in.Max, pv), true)
 }
-
